@@ -210,7 +210,9 @@ def _geo2_tables(case):
         "mapping": pd.DataFrame(mp, index=pidx, columns=XYZ),
     }
     if ncs:
-        cols = [names[i] for i in sorted(rng.choice(n, size=min(n, int(rng.integers(1, 4))), replace=False))]
+        # any subset (often all) of the sensors, in an order of its own
+        ncol = n if rng.random() < 0.4 else int(rng.integers(1, n + 1))
+        cols = [names[i] for i in rng.permutation(n)[:ncol]]
         cm = rng.uniform(-1, 1, size=(ncs, len(cols)))
         cm[rng.random(cm.shape) < 0.2] = np.nan
         d["constraints"] = pd.DataFrame(cm, index=cnames, columns=cols)
